@@ -326,25 +326,38 @@ class MultiTypeMap(dict):
             nerr=self.key_error(tup, ()),
         )
 
+    def _raiser(self, obj_t_tup, group):
+        err = self.key_error(obj_t_tup, group)
+
+        def raise_error(*args, **kwargs):
+            raise err
+
+        return raise_error
+
     def resolve(self, obj_t_tup):
         results = self.mro(obj_t_tup)
         if not results:
             raise self.key_error(obj_t_tup, ())
 
         funcs = []
+        below = None
         for group in reversed(results):
             handlers = [c.handler for c in group]
             dependent = any(self.dependent[c.handler] for c in group)
             if dependent:
-                nxt = self.wrap_dependent(
-                    obj_t_tup, handlers, group, funcs[-1] if funcs else None
-                )
+                next_call = funcs[-1] if funcs else None
+                if next_call and next_call[0] is None:
+                    # The next group is ambiguous: falling through to it
+                    # must raise that error, not "no method".
+                    next_call = (self._raiser(obj_t_tup, below), next_call[1])
+                nxt = self.wrap_dependent(obj_t_tup, handlers, group, next_call)
             elif len(group) != 1:
                 nxt = None
             else:
                 nxt = handlers[0]
             codes = [h.__code__ for h in handlers if hasattr(h, "__code__")]
             funcs.append((nxt, codes))
+            below = group
 
         funcs.reverse()
 
